@@ -98,6 +98,12 @@ def _one_refactor(args):
                 with open(p, "w", encoding="utf-8") as f:
                     f.write(out)
             desc = "every local variable of every function renamed (the test suite passes on this copy)"
+        elif isinstance(spec, tuple) and spec[0] == "PATCH":
+            import subprocess
+            _, path, desc = spec
+            r = subprocess.run(["git", "apply", "--whitespace=nowarn", "-p1", path], cwd=d, capture_output=True, text=True)
+            if r.returncode:
+                return ("skipped", desc, "patch does not apply to the tree under analysis")
         else:
             fname, edits, desc, props = spec
             p = os.path.join(d, "graphtage", fname)
@@ -254,6 +260,12 @@ def extend(ctx):
         # behaviour-preserving refactors must not raise an alarm
         from . import refactors
         rjobs = [(prop, src_root, base, "REFORMAT"), (prop, src_root, base, "ALPHA")] + [(prop, src_root, base, r) for r in refactors.REFACTORS if prop in r[3]]
+        # refactorings produced by independent agents (kept as patch files; the file name lists the properties they concern)
+        pdir = os.path.join(os.path.dirname(os.path.dirname(os.path.abspath(__file__))), "refactor_patches")
+        if os.path.isdir(pdir):
+            for fn in sorted(os.listdir(pdir)):
+                if fn.endswith(".diff") and "__" in fn and prop in fn.split("__", 1)[0].split(","):
+                    rjobs.append((prop, src_root, base, ("PATCH", os.path.join(pdir, fn), "agent refactoring: " + fn.split("__", 1)[1][:-5])))
         with cf.ProcessPoolExecutor(max_workers=min(16, len(rjobs))) as ex:
             rres = list(ex.map(_one_refactor, rjobs))
         summary["refactors"] = [{"what": d_, "status": st, "detail": det} for st, d_, det in rres]
